@@ -24,6 +24,7 @@ HSmall(n) == Harden(FromNat(n, 4))             \* n < 2^31 as a TLC integer
 \* index in [0, 2^31)
 IndexOk(ix) ==
   /\ ~ix.neg
+  /\ ("frac" \notin DOMAIN ix \/ ~ix.frac)      \* an index is an integer: mag + 1/2 is not an index
   /\ LET m == Drop(ix.mag, CountLeading(ix.mag, 0))
      IN Len(m) < 4 \/ (Len(m) = 4 /\ m[1] < 128)
 HIndex(ix) == LET m == Drop(ix.mag, CountLeading(ix.mag, 0)) IN Harden(Zeros(4 - Len(m)) \o m)
